@@ -8,6 +8,7 @@ import (
 	"strings"
 
 	"github.com/jsightapi/jsight-schema-core/notations/jschema"
+	"github.com/jsightapi/jsight-schema-core/rules/enum"
 
 	"verifharness/internal/gen"
 	"verifharness/internal/mon"
@@ -304,8 +305,16 @@ var c15Types = []typeDef{
 	{Name: "@c", Text: `3`},
 }
 
+// c15EnumRules are registered in every schema object of this check (a rule that is not named costs nothing).
+var c15EnumRules = []typeDef{{Name: "@eb", Text: `[true, false]`}, {Name: "@ez", Text: `[null]`}, {Name: "@es", Text: `["M", "S", 1]`}}
+
 func c15New(text string, types bool) (*jschema.JSchema, error) {
 	s := jschema.New("root", text)
+	for _, e := range c15EnumRules {
+		if err := s.AddRule(e.Name, enum.New(e.Name, e.Text)); err != nil {
+			return nil, err
+		}
+	}
 	if types {
 		for _, t := range c15Types {
 			if err := s.AddType(t.Name, jschema.New(t.Name, t.Text)); err != nil {
@@ -788,8 +797,8 @@ var c15Rules = map[byte][]string{
 	's': {`minLength: 0`, `maxLength: 1000`, `type: "string"`, `nullable: true`, `minLength: 0, maxLength: 999`, `or: [{type: "string"}, {type: "integer"}]`, `const: true`, `type: "any"`,
 		// comment and annotation markers inside rule strings
 		`regex: ".*/*"`, `regex: "(#|//|.)*"`, `or: [{type: "string", regex: ".*/*#?"}, "integer"]`, `regex: "^.*/?$", minLength: 0`},
-	'b': {`type: "boolean"`, `nullable: true`, `const: true`},
-	'z': {`type: "null"`, `type: "any"`, `nullable: true`},
+	'b': {`type: "boolean"`, `nullable: true`, `const: true`, `enum: @eb`, `nullable: false, enum: @eb`},
+	'z': {`type: "null"`, `type: "any"`, `nullable: true`, `enum: @ez`},
 	'o': {`additionalProperties: true`, `nullable: true`, `type: "object"`, `additionalProperties: "string"`, `additionalProperties: false, nullable: false`},
 	'a': {`minItems: 0`, `maxItems: 100`, `type: "array"`, `minItems: 0, maxItems: 50`, `nullable: true`},
 	'r': {`nullable: true`},
@@ -1288,6 +1297,7 @@ var c15Seeds = []string{
 	`"#"`, `"//"`, `"/* */"`, `"*/"`, `"\""`, `"\\"`, `"a\\"`, `"# not a comment"`, `{"#": "#"}`, `{"//": "/*", "*/": "#"}`, `["#", "//"]`,
 	`1`, `-1`, `0`, `1.5`, `true`, `false`, `null`, `""`, `{}`, `[]`, `[[]]`, `{"a":{}}`, `@a`, `@a | @b`, `@a|@b`, `@a // {nullable: true}`, `@a | @b // note`,
 	`1 // note`, `1 // {min: 0}`, `1 // {min: 0} - note`, `1 //{min: 0}-note`, `1 /* note */`, `1 /* {min: 0} */`, "1 /* {min: 0}\n - note */", "1 /*\n{min: 0}\n*/", "1 /* {min: 0} - a\nb\nc */",
+	`"M" // {enum: @es} - size of the shirt`, "{\n  \"k\": \"M\" // {enum: @es} - note\n}", "[\n  1, // {enum: @es} - n\n  \"S\" /* {enum: @es} - m */\n]", `1 // {optional: false, enum: @es}-n`, `"S" // {enum: @es}`,
 	`"ab" /* {regex: "^a*/?b$"} */`, `"*/" /* {enum: ["*/", "x"]} */`, "42 /* {enum: [\n1, // one */ or so\n42 // two\n]} */", "{\n  \"k\": \"a\" /* {regex: \"a*/*\"} */\n}", `"x" /* {or: [{type: "string", regex: "x*/"}, "integer"]} - n */`, `"//" /* {enum: ["//", "#", "/*"]} */`,
 	"{}\n/* note */", "{} /* note */", "[] /* {minItems: 0} */", "1\n", "1 ", "1\t", "1\n\n", " 1", "\n1", "\n\n  1  \n\n", "1 // note ", "1 // note\n", "1 /* n */ ", "1 /* n */\n\n",
 	"{\n  \"a\": 1, // {min: 0}\n  \"b\": \"s\" // note\n}", "{ // {nullable: true}\n  \"a\": 1\n}", "[ // {minItems: 1}\n  1, // {min: 0}\n  \"s\" // note\n]",
